@@ -183,7 +183,7 @@ func zooRoot(variant int) interface{} {
 		M:   map[string]int{"one": 1, "zero": 0}, MI: map[int]string{1: "i-one", 2: ""}, MN: map[ZKey]string{"nk": "named-key-value"},
 		MA:    map[string]interface{}{"s": "str", "n": nil, "in": &ZInner{Val: 1, Name: "ma-in"}, "m": map[string]int{"deep": 99}},
 		MP:    map[string]*ZInner{"p": {Val: 2, Name: "mp-p"}, "nilp": nil},
-		MK:    map[interface{}]string{"ik": "interface-key"},
+		MK:    map[interface{}]string{"ik": "interface-key", ZKey("ik"): "entry-under-a-key-of-a-defined-string-type", 7: "entry-under-an-int-key"},
 		ME:    map[string]string{"": "value-under-empty-key", "k": "v"},
 		Iface: ZInner{Val: 5, Name: "iface-inner"},
 		SF:    ZShadowFirst{Title: "sf-outer-title", ZBase: ZBase{ID: 1, Title: "sf-base-title"}},
@@ -225,6 +225,12 @@ func zooRoot(variant int) interface{} {
 		return &o
 	case 4: // reached through a map and an interface slice
 		return map[string]interface{}{"o": &o, "list": []interface{}{o, &o}}
+	case 6: // *interface{} (what json.Unmarshal into an interface variable leaves behind) holding the struct
+		var doc interface{} = o
+		return &doc
+	case 7: // *interface{} holding a pointer
+		var doc interface{} = &o
+		return &doc
 	default:
 		p := &o
 		return &p // **ZOuter
@@ -240,7 +246,13 @@ type zStep struct {
 	Arg   int    `json:"arg,omitempty"`   // method argument (Add)
 	Var   string `json:"var,omitempty"`   // index / key written as this variable instead of a literal
 	Undef bool   `json:"undef,omitempty"` // ... which is not defined
+	// Bound (slice): a bound that is written but has no value: "lo-nil" [nil:J], "hi-nil" [I:nil],
+	// "lo-absent" [nokeys.k:J], "hi-absent" [I:nokeys["k"]] (nokeys is an empty map variable)
+	Bound string `json:"bound,omitempty"`
 }
+
+// variables that C06 / C17 templates can use as keys of the interface-keyed map
+var zIfaceKeys = map[string]interface{}{"keyNamed": ZKey("ik"), "keyPlain": "ik", "keyInt": 7, "keyAbsent": ZKey("nope")}
 
 type zStatus int
 
@@ -272,7 +284,7 @@ func zResolve(root interface{}, steps []zStep) (val reflect.Value, st zStatus, w
 			return v, zErr, "undefined index variable"
 		}
 		switch s.Kind {
-		case "method":
+		case "method", "methodval":
 			// methods of T always; methods of *T when the value is addressable (reached through a pointer)
 			d, isNil := zDeref(v)
 			if isNil {
@@ -286,6 +298,10 @@ func zResolve(root interface{}, steps []zStep) (val reflect.Value, st zStatus, w
 			}
 			if !m.IsValid() {
 				return v, zErr, "no such method"
+			}
+			if s.Kind == "methodval" { // the method itself, named like a field and not called
+				v = m
+				break
 			}
 			var args []reflect.Value
 			if m.Type().NumIn() == 1 {
@@ -346,6 +362,19 @@ func zResolve(root interface{}, steps []zStep) (val reflect.Value, st zStatus, w
 				return reflect.Value{}, zNil, "absent key"
 			}
 			v = e
+		case "ikey":
+			d, isNil := zDeref(v)
+			if d.Kind() != reflect.Map || (isNil && d.Kind() != reflect.Map) {
+				return v, zErr, "key on non-map"
+			}
+			e := d.MapIndex(reflect.ValueOf(zIfaceKeys[s.Var]))
+			if !e.IsValid() {
+				if !last {
+					return reflect.Value{}, zErr, "step on the nil an absent key yields"
+				}
+				return reflect.Value{}, zNil, "absent key"
+			}
+			v = e
 		case "index":
 			d, isNil := zDeref(v)
 			if isNil {
@@ -361,6 +390,9 @@ func zResolve(root interface{}, steps []zStep) (val reflect.Value, st zStatus, w
 				return v, zErr, "index of " + d.Kind().String()
 			}
 		case "slice":
+			if s.Bound != "" {
+				return v, zErr, "slice bound without a value"
+			}
 			d, isNil := zDeref(v)
 			if isNil {
 				return v, zErr, "slice of nil"
@@ -472,7 +504,11 @@ func zOptions(v reflect.Value) (valid, invalid []zStep) {
 				valid = append(valid, zStep{Kind: "field", Name: "", Spell: "bracket"}) // absent empty key
 			}
 		} else if d.Type().Key().Kind() == reflect.Interface {
-			// interface-keyed map: only probed by C17's dedicated unhashable-key form
+			// interface-keyed map: the key is a variable, and its dynamic type is part of the key
+			// (unhashable keys: C17's dedicated form)
+			for _, name := range []string{"keyNamed", "keyPlain", "keyInt", "keyAbsent"} {
+				valid = append(valid, zStep{Kind: "ikey", Var: name})
+			}
 		} else {
 			for _, k := range keys {
 				valid = append(valid, zStep{Kind: "key", I: int(k.Int())})
@@ -492,6 +528,7 @@ func zOptions(v reflect.Value) (valid, invalid []zStep) {
 			valid = append(valid, zStep{Kind: "slice", I: 0, J: -1}, zStep{Kind: "slice", I: n - 1, J: n}, zStep{Kind: "slice", I: 0, J: n - 1})
 		}
 		invalid = append(invalid, zStep{Kind: "index", I: n}, zStep{Kind: "index", I: -1}, zStep{Kind: "slice", I: 0, J: n + 2}, zStep{Kind: "slice", I: n + 1, J: -1}, zStep{Kind: "field", Name: "Name"})
+		invalid = append(invalid, zStep{Kind: "slice", I: 0, J: n, Bound: "lo-nil"}, zStep{Kind: "slice", I: 0, J: n, Bound: "hi-nil"}, zStep{Kind: "slice", I: 0, J: -1, Bound: "lo-absent"}, zStep{Kind: "slice", I: 1, J: n, Bound: "hi-absent"})
 		if n >= 2 {
 			invalid = append(invalid, zStep{Kind: "slice", I: 2, J: 1})
 		}
@@ -506,7 +543,7 @@ func zPathString(base string, steps []zStep) string {
 	s := base
 	for i, st := range steps {
 		switch st.Kind {
-		case "field":
+		case "field", "methodval":
 			if st.Spell == "bracket" {
 				s += "[" + strconv.Quote(st.Name) + "]"
 			} else if s == "." && i == 0 {
@@ -526,7 +563,7 @@ func zPathString(base string, steps []zStep) string {
 			} else {
 				s += "." + st.Name + "(" + arg + ")"
 			}
-		case "index", "key":
+		case "index", "key", "ikey":
 			if st.Var != "" {
 				s += "[" + st.Var + "]"
 			} else {
@@ -540,6 +577,16 @@ func zPathString(base string, steps []zStep) string {
 			lo := strconv.Itoa(st.I)
 			if st.I == 0 && st.J >= 0 && st.J%2 == 0 {
 				lo = ""
+			}
+			switch st.Bound {
+			case "lo-nil":
+				lo = "nil"
+			case "hi-nil":
+				hi = "nil"
+			case "lo-absent":
+				lo = "nokeys.k"
+			case "hi-absent":
+				hi = "nokeys[\"k\"]"
 			}
 			s += "[" + lo + ":" + hi + "]"
 		}
